@@ -167,3 +167,22 @@ caw_screen = Contract(
 caw_screen.symdict = True
 caw_screen.inline_methods = ("on_terminal_size_change",)
 caw_screen.setup = _setup
+
+
+# ---------------------------------------------------------------------------------------------- C18's side of the render
+# get_cursor_vertical_diff measures movement "since the last render" from the row the window REMEMBERS (_last_cursor_row): the render must
+# remember the row on which it really left the terminal's cursor - for every array, cursor_pos, top row and size, scrolled-off rows included.
+def _remembered_row(a, r):
+    g = a.final_state.ghost
+    f = a.final.self
+    return [("post.remembered_cursor_row_is_the_row_the_cursor_was_left_on", And(f._last_cursor_row == g["term.r"], f._last_cursor_column == g["term.c"]))]
+
+
+caw_remembers = Contract(
+    M + "CursorAwareWindow.render_to_terminal#remembered_row", "C18", ["self", "array", "cursor_pos"], kind="method",
+    shapes=[Shape("any", dict(self=_win(), array=LineSeqT(), cursor_pos=PairT()))],
+    requires=_requires, ensures=_remembered_row,
+    loops={0: Loop(inv=_loop1), 1: Loop(inv=_loop2), 2: Loop(inv=_loop3)})
+caw_remembers.symdict = True
+caw_remembers.inline_methods = ("on_terminal_size_change",)
+caw_remembers.setup = _setup
